@@ -293,6 +293,9 @@ Section Nodes.
 
   (* ---------------------------------------------------------------- assignments *)
 
+  Lemma is_void_deref lc v : is_void (deref lc v) = is_void v.
+  Proof. destruct v; reflexivity. Qed.
+
   Lemma b_static_is : bytes_eqb b_static n_static = true.
   Proof. reflexivity. Qed.
 
@@ -324,15 +327,15 @@ Section Nodes.
       assert (Q : ceq c2 c) by (eapply ceq_trans; [exact Q2|apply ceq_cerr2]).
       pose proof (ceq_Inv L c2 c Q HI) as I2.
       assert (BL : bufLC c2 = bufLC c) by (destruct Q as (_&QL&_); exact QL).
-      rewrite is_nil_deref in E.
-      set (c3 := match ok with [] => c2 | _ :: _ => ctx_set_static ok (VBool (negb (is_nil v2))) c2 end).
-      assert (A3 : abs c3 = match ok with [] => abs c | _ :: _ => env_set ok (VBool (negb (is_nil v2))) true (abs c) end).
+      rewrite is_void_deref in E.
+      set (c3 := match ok with [] => c2 | _ :: _ => ctx_set_static ok (VBool (negb (is_void v2))) c2 end).
+      assert (A3 : abs c3 = match ok with [] => abs c | _ :: _ => env_set ok (VBool (negb (is_void v2))) true (abs c) end).
       { unfold c3. destruct ok; [apply ceq_abs, Q|]. unfold ctx_set_static. rewrite abs_ctx_set, (ceq_abs _ _ Q). reflexivity. }
       assert (I3 : Inv L c3).
       { unfold c3. destruct ok; [exact I2|]. apply Inv_ctx_set; [left; apply cell_free_bool|apply not_live_cell_free, cell_free_bool|exact I2]. }
       assert (B3 : bufLC c3 = bufLC c).
       { unfold c3. destruct ok; [exact BL|]. unfold ctx_set_static, ctx_set, put_slot. destruct (upd_slot _ _ _); exact BL. }
-      destruct (is_nil v2) eqn:N.
+      destruct (is_void v2) eqn:N.
       + inversion E; subst. exists c3, w, None. rewrite app_nil_r. splits; done.
       + inversion E; subst.
         destruct V2 as [CF|(i & -> & Hi)].
@@ -919,11 +922,11 @@ Proof.
   destruct (run_mods (w_n w) c1 mods v) as [c2 v2|] eqn:RM; [|discriminate].
   pose proof (run_mods_vars _ _ _ _ _ _ RM) as MV. rewrite GV in MV.
   destruct (cerr c2); [inversion E; subst; rewrite MV in Hin; exact Hin|].
-  set (c3 := match ok with [] => c2 | _ :: _ => ctx_set_static ok (VBool (negb (is_nil v2))) c2 end) in *.
+  set (c3 := match ok with [] => c2 | _ :: _ => ctx_set_static ok (VBool (negb (is_void v2))) c2 end) in *.
   assert (IN3 : In s' (vars c3) -> In s' (vars c)).
   { unfold c3. destruct ok; [rewrite MV; exact (fun H => H)|]. intros H. unfold ctx_set_static in H.
     apply SET in H; [rewrite MV in H; exact H|discriminate]. }
-  destruct (is_nil v2); [inversion E; subst; apply IN3, Hin|].
+  destruct (is_void v2); [inversion E; subst; apply IN3, Hin|].
   destruct (conv_bytes v2) as [[|b0 b]|].
   - destruct v2; inversion E; subst;
       try (apply IN3; eapply SET; [exact Hin|discriminate]); apply IN3, (SETC _ _ _ Hin).
@@ -1172,3 +1175,84 @@ Proof.
   rewrite E. exists (set_brkD (Z.max d (brkD c3)) (set_cerr None c3)).
   split; [destruct b; apply block_break|cbn [brkD set_brkD]; lia].
 Qed.
+
+(* ------------------------------------------------------------------ the ok flag of a ctx assignment *)
+
+Lemma find_var_upd_other k k' f : forall l l',
+  (forall s, s_key (f s) = s_key s) -> k <> k' -> upd_slot k' f l = Some l' -> find_var k l' = find_var k l.
+Proof.
+  induction l as [|s l IH]; intros l' Hk Hne E; [discriminate|]. cbn [upd_slot] in E.
+  destruct (bytes_eqb (s_key s) k') eqn:K.
+  - inversion E; subst. cbn [find_var]. rewrite Hk. apply bytes_eqb_eq in K.
+    assert (F : bytes_eqb (s_key s) k = false).
+    { destruct (bytes_eqb (s_key s) k) eqn:K2; [|reflexivity]. apply bytes_eqb_eq in K2. congruence. }
+    rewrite F. reflexivity.
+  - destruct (upd_slot k' f l) as [r|] eqn:U; [|discriminate]. inversion E; subst. cbn [find_var].
+    destruct (bytes_eqb (s_key s) k); [reflexivity|]. apply (IH r Hk Hne eq_refl).
+Qed.
+
+Lemma find_var_put_other k k' f fresh c :
+  (forall s, s_key (f s) = s_key s) -> s_key fresh = k' -> k <> k' ->
+  find_var k (vars (put_slot k' f fresh c)) = find_var k (vars c).
+Proof.
+  intros Hk Hf Hne. unfold put_slot. destruct (upd_slot k' f (vars c)) as [l'|] eqn:U; cbn [vars set_vars].
+  - exact (find_var_upd_other k k' f _ _ Hk Hne U).
+  - induction (vars c) as [|s l IH]; cbn [app find_var].
+    + assert (F : bytes_eqb (s_key fresh) k = false).
+      { destruct (bytes_eqb (s_key fresh) k) eqn:K2; [|reflexivity]. apply bytes_eqb_eq in K2. congruence. }
+      rewrite F. reflexivity.
+    + destruct (bytes_eqb (s_key s) k); [reflexivity|]. apply IH.
+      cbn [upd_slot] in U. destruct (bytes_eqb (s_key s) k'); [discriminate|]. destruct (upd_slot k' f l); [discriminate|reflexivity].
+Qed.
+
+(* a non-literal assignment with an ok variable whose source and modifier chain evaluate: the ok
+   variable receives "the value is not void" (not nil and not an empty string / byte value); when
+   the value is void nothing else is assigned -- the target variable is untouched *)
+Theorem ctx_ok_flag flits lookup budget inc var src ok ins mods c w c1 v c2 v2 :
+  ok <> [] ->
+  ctx_get (set_cerr None c) src = (c1, v) -> cerr c1 = None ->
+  run_mods (w_n w) c1 mods v = ChOk c2 v2 -> cerr c2 = None ->
+  exists c',
+    write_node flits lookup budget inc (NCtx var src ok ins false mods) c w = Out c' w None /\
+    (var <> ok \/ is_void v2 = true ->
+     exists s, find_var ok (vars c') = Some s /\ s_val s = VBool (negb (is_void v2)) /\ s_static s = true /\
+               var_value s [] = VBool (negb (is_void v2))) /\
+    (is_void v2 = true -> forall k, k <> ok -> find_var k (vars c') = find_var k (vars c)).
+Proof.
+  intros Hok G C1 RM C2. cbn [write_node]. rewrite G, C1, RM, C2.
+  destruct ok as [|o0 ok0]; [congruence|]. set (ok := o0 :: ok0) in *.
+  set (c3 := ctx_set_static ok (VBool (negb (is_void v2))) c2).
+  assert (V3 : forall k, k <> ok -> find_var k (vars c3) = find_var k (vars c)).
+  { intros k Hk. unfold c3, ctx_set_static, ctx_set. rewrite find_var_put_other by (try reflexivity; exact Hk).
+    rewrite (run_mods_vars _ _ _ _ _ _ RM). pose proof (ctx_get_vars (set_cerr None c) src) as GV. rewrite G in GV. cbn [fst] in GV. rewrite GV. reflexivity. }
+  assert (O3 : exists s, find_var ok (vars c3) = Some s /\ s_val s = VBool (negb (is_void v2)) /\ s_static s = true /\
+                         var_value s [] = VBool (negb (is_void v2))).
+  { unfold c3, ctx_set_static, ctx_set.
+    destruct (find_var_put ok (fun s => mkSlot (s_key s) (VBool (negb (is_void v2))) [] false (s_cntr s) true)
+                           (mkSlot ok (VBool (negb (is_void v2))) [] false 0 true) c2) as (s & F & Hs); [reflexivity|reflexivity|].
+    exists s. split; [exact F|]. destruct Hs as [->|(s0 & _ & ->)]; repeat split. }
+  assert (KEEP : forall c', (var <> ok -> find_var ok (vars c') = find_var ok (vars c3)) ->
+            is_void v2 = false ->
+            (var <> ok \/ is_void v2 = true ->
+             exists s, find_var ok (vars c') = Some s /\ s_val s = VBool (negb (is_void v2)) /\ s_static s = true /\
+                       var_value s [] = VBool (negb (is_void v2))) /\
+            (is_void v2 = true -> forall k, k <> ok -> find_var k (vars c') = find_var k (vars c))).
+  { intros c' H N. split; [|rewrite N; discriminate]. intros [Hv|Hv]; [rewrite (H Hv); exact O3|rewrite N in Hv; discriminate]. }
+  destruct (is_void v2) eqn:N.
+  - exists c3. split; [reflexivity|]. split; [intros _; exact O3|intros _; exact V3].
+  - destruct (conv_bytes v2) as [[|b0 b]|].
+    + destruct v2; eexists; (split; [reflexivity|]); apply KEEP; try reflexivity; intros Hv;
+        first [apply find_var_put_other; [reflexivity|reflexivity|congruence]].
+    + eexists. split; [reflexivity|]. apply KEEP; [|reflexivity]. intros Hv.
+      apply find_var_put_other; [reflexivity|reflexivity|congruence].
+    + destruct v2; eexists; (split; [reflexivity|]); apply KEEP; try reflexivity; intros Hv;
+        first [apply find_var_put_other; [reflexivity|reflexivity|congruence]].
+Qed.
+
+(* the reference side: the same two assignments *)
+Theorem ref_ctx_ok_flag flits rlookup budget rinc var src ok mods e v v2 :
+  env_get e src = Some v -> apply_mods e mods v = ChV v2 ->
+  ref_eval flits rlookup budget rinc (ACtx var src ok false mods) e =
+  (let e1 := match ok with [] => e | _ :: _ => env_set ok (VBool (negb (is_void v2))) true e end in
+   ([], if is_void v2 then e1 else env_set var v2 true e1, SNone)).
+Proof. intros G M. cbn [ref_eval]. rewrite G, M. destruct (is_void v2); reflexivity. Qed.
